@@ -20,6 +20,7 @@ type CaseSpec struct {
 	Unwind      int               `json:"unwind,omitempty"`
 	ExpectReach []string          `json:"expect_reach,omitempty"`
 	MaxPaths    int64             `json:"max_paths,omitempty"`
+	WallS       float64           `json:"wall_s,omitempty"` // wall-clock budget of the case; exceeded = inconclusive, violations found so far are kept
 	Replay      map[string]uint64 `json:"replay,omitempty"` // concrete values for nondets (replay mode)
 	Twin        bool              `json:"twin,omitempty"`   // vacuity twin: expect a violation of the final assert(false)
 	// UnwindIsViolation: the unwinding bound is a proven bound on every loop of the code under test,
@@ -340,7 +341,8 @@ func runCase(in *Interp, workers []*Worker, cs *CaseSpec) *CaseResult {
 					v := st.violationFromPath("nontermination", st.msg)
 					cr.Violations = append(cr.Violations, v)
 				}
-				stop := cr.Paths >= maxPaths || len(cr.Violations) >= 5
+				overtime := cs.WallS > 0 && time.Since(t0).Seconds() > cs.WallS
+				stop := cr.Paths >= maxPaths || len(cr.Violations) >= 5 || overtime
 				mu.Unlock()
 				q.done()
 				if stop {
@@ -349,6 +351,10 @@ func runCase(in *Interp, workers []*Worker, cs *CaseSpec) *CaseResult {
 					if cr.Paths >= maxPaths && !seenInc["maxpaths"] {
 						seenInc["maxpaths"] = true
 						cr.Inconclusive = append(cr.Inconclusive, fmt.Sprintf("path budget %d exhausted", maxPaths))
+					}
+					if overtime && !seenInc["overtime"] {
+						seenInc["overtime"] = true
+						cr.Inconclusive = append(cr.Inconclusive, fmt.Sprintf("wall-clock budget of the case (%.0fs) exhausted after %d paths", cs.WallS, cr.Paths))
 					}
 					mu.Unlock()
 					return
